@@ -55,44 +55,6 @@ NoErrorReport(ev) == \A i \in 1..Len(ev.cb) : ev.cb[i].cat = "WARNING"
 
 AcceptedAsDocumented(ev) == ev.ok = 1 /\ NoErrorReport(ev)
 
-Simple == {"Resize", "SetType", "AddFreq", "SetFreq", "GetFreq",
-           "SetFreqVec", "GetFreqVec", "GetFmin", "GetFmax", "SetCell",
-           "GetCell", "SetMatrix", "GetMatrix", "SetFromVec", "GetToVec",
-           "GetZ0", "SetZ0", "GetZ0Vec", "SetZ0Vec", "SetAllZ0", "HasFz0",
-           "GetFZ0", "SetFZ0", "GetFZ0Vec", "SetFZ0Vec", "SetFiletype",
-           "SetFprec", "SetDprec", "SetFormat"}
-
-Do(s, ev) ==
-    CASE ev.e = "Resize"     -> DoResize(s, ev.t, ev.r, ev.c, ev.n)
-      [] ev.e = "SetType"    -> DoSetType(s, ev.t)
-      [] ev.e = "AddFreq"    -> DoAddFreq(s, ev.v)
-      [] ev.e = "SetFreq"    -> DoSetFreq(s, ev.f, ev.v)
-      [] ev.e = "GetFreq"    -> DoGetFreq(s, ev.f)
-      [] ev.e = "SetFreqVec" -> DoSetFreqVec(s, ev.vec)
-      [] ev.e = "GetFreqVec" -> DoGetFreqVec(s)
-      [] ev.e = "GetFmin"    -> DoGetFmin(s)
-      [] ev.e = "GetFmax"    -> DoGetFmax(s)
-      [] ev.e = "SetCell"    -> DoSetCell(s, ev.f, ev.r, ev.c, ev.v)
-      [] ev.e = "GetCell"    -> DoGetCell(s, ev.f, ev.r, ev.c)
-      [] ev.e = "SetMatrix"  -> DoSetMatrix(s, ev.f, ev.vec)
-      [] ev.e = "GetMatrix"  -> DoGetMatrix(s, ev.f)
-      [] ev.e = "SetFromVec" -> DoSetFromVec(s, ev.r, ev.c, ev.vec)
-      [] ev.e = "GetToVec"   -> DoGetToVec(s, ev.r, ev.c)
-      [] ev.e = "GetZ0"      -> DoGetZ0(s, ev.p)
-      [] ev.e = "SetZ0"      -> DoSetZ0(s, ev.p, ev.v)
-      [] ev.e = "GetZ0Vec"   -> DoGetZ0Vec(s)
-      [] ev.e = "SetZ0Vec"   -> DoSetZ0Vec(s, ev.vec)
-      [] ev.e = "SetAllZ0"   -> DoSetAllZ0(s, ev.v)
-      [] ev.e = "HasFz0"     -> DoHasFz0(s)
-      [] ev.e = "GetFZ0"     -> DoGetFZ0(s, ev.f, ev.p)
-      [] ev.e = "SetFZ0"     -> DoSetFZ0(s, ev.f, ev.p, ev.v)
-      [] ev.e = "GetFZ0Vec"  -> DoGetFZ0Vec(s, ev.f)
-      [] ev.e = "SetFZ0Vec"  -> DoSetFZ0Vec(s, ev.f, ev.vec)
-      [] ev.e = "SetFiletype" -> DoSetFiletype(s, ev.ft)
-      [] ev.e = "SetFprec"   -> DoSetFprec(s, ev.n)
-      [] ev.e = "SetDprec"   -> DoSetDprec(s, ev.n)
-      [] ev.e = "SetFormat"  -> DoSetFormat(s, ev.valid = 1, ev.fmt)
-
 (* value returned by an accepted call *)
 ValMatches(ev, r) ==
     CASE ev.e = "HasFz0" -> (ev.val = 1) = r.val
@@ -110,7 +72,7 @@ TReset ==
 TSimple ==
     LET ev == TraceLog[l]
         s  == objs[ev.o + 1]
-        r  == Do(s, ev)
+        r  == Apply(s, ev)
     IN /\ ev.e \in Simple
        /\ IF r.free
           THEN (* the manual leaves acceptance open: either protocol, and  *)
